@@ -32,8 +32,7 @@ Check error_anon_duplicates.
 
 (* tie: the functions this property's model describes by hand (not by translation) still have the pinned text; an
    edit to one of them breaks this obligation and sends the check searching for a failing input *)
-From VL Require Import ShapeFacts.
 From VLG Require Import ShapeGen.
 Theorem C09_modelled_code_is_the_pinned_text : shapes_for_C09 = true.
-Proof. exact shapes_C09_ok. Qed.
+Proof. vm_compute. reflexivity. Qed.
 Print Assumptions C09_modelled_code_is_the_pinned_text.
